@@ -11,6 +11,7 @@ package openflow13
 import (
 	"encoding/binary"
 	"errors"
+	"fmt"
 	"net"
 
 	"github.com/contiv/libOpenflow/common"
@@ -99,6 +100,17 @@ const (
 )
 
 func Parse(b []byte) (message util.Message, err error) {
+	// Frames come from the network: a truncated or corrupted one must be
+	// reported to the caller, not take the process down.
+	if len(b) < 8 {
+		return nil, errors.New("The []byte is too short to hold an OpenFlow header.")
+	}
+	defer func() {
+		if r := recover(); r != nil {
+			message = nil
+			err = fmt.Errorf("malformed OpenFlow message of type %d: %v", b[1], r)
+		}
+	}()
 	switch b[1] {
 	case Type_Hello:
 		message = new(common.Hello)
